@@ -423,9 +423,11 @@ def check_reconvert(ctx, r, rng):
                 walk(lc, cc)
 
     walk(comp, r)
-    for _ in range(rng.randint(1, 3)):
+    for step_i in range(rng.randint(2, 4)):
         lv, rc = rng.choice(pairs)
         m = rng.choice(["append_text", "append_dep", "set_prop", "extend", "update_dict"])
+        if step_i == 0:
+            lv, rc, m = comp, r, "update_dict"  # every history updates the root component's props with a mapping once
         if m == "append_text":
             lv.append("late text")
             rc["c"] = rc["c"] + [{"k": "jtext", "s": "late text"}]
@@ -580,7 +582,7 @@ def run(ctx):
         ctx.state("top_shape", (r["how"], min(len(r["c"]), 3), min(len(r["props"]), 4)))
         if rng.random() < 0.05:
             ctx.guard(check_allowed_props, ctx, rng, witness={"what": "allowedProps"})
-        if rng.random() < 0.2:
+        if rng.random() < 0.3:
             ctx.guard(check_reconvert, ctx, r, rng, witness={"component": r})
         if rng.random() < 0.1:
             ctx.guard(check_after_failure, ctx, r, rng, witness={"component": r, "scenario": "after a failed conversion"})
